@@ -4,7 +4,9 @@ use super::{Context, LintRule};
 use crate::handler::{Handler, Traverse};
 use crate::tags::{self, Tags};
 use crate::Program;
-use deno_ast::view::{ArrowExpr, Function, Param, Pat};
+use deno_ast::view::{
+  ArrowExpr, Constructor, Function, Param, ParamOrTsParamProp, Pat,
+};
 use deno_ast::{SourceRange, SourceRanged};
 use derive_more::Display;
 use std::collections::{BTreeSet, HashSet};
@@ -101,6 +103,14 @@ impl Handler for NoDupeArgsHandler {
 
   fn arrow_expr(&mut self, arrow_expr: &ArrowExpr, _ctx: &mut Context) {
     self.check_pats(arrow_expr.range(), arrow_expr.params.iter());
+  }
+
+  fn constructor(&mut self, constructor: &Constructor, _ctx: &mut Context) {
+    let pats = constructor.params.iter().filter_map(|param| match param {
+      ParamOrTsParamProp::Param(param) => Some(&param.pat),
+      ParamOrTsParamProp::TsParamProp(_) => None,
+    });
+    self.check_pats(constructor.range(), pats);
   }
 }
 
